@@ -223,6 +223,12 @@ func runUnit(fs *flag.FlagSet, prop string, seed uint64, n int, outDir, file str
 	if fn == "crossings" {
 		return runCrossUnit(seed, n, outDir)
 	}
+	if strings.HasPrefix(fn, "route-") {
+		return runRouteUnit(strings.TrimPrefix(fn, "route-"), seed, n, outDir)
+	}
+	if fn == "order" {
+		return runOrderUnit(seed, n, outDir)
+	}
 	if strings.HasPrefix(fn, "pos-") {
 		return runPosUnit(strings.TrimPrefix(fn, "pos-"), seed, n, outDir)
 	}
